@@ -80,6 +80,9 @@ def gen_cases(tier, seed):
         b = bytearray(h); b[rng.randrange(len(b))] = rng.randrange(256)
         cases += ["rtap " + hx(bytes(b)), "classify 1 " + hx(bytes(b) + bytes(rng.randrange(256) for _ in range(rng.randrange(0, 40))))]
         cases.append("rssi " + hx(h))
+    # F34 (open): the rssi routine on a buffer shorter than its own it_len
+    h = rtgen.rtap_single(0x2E, rng)
+    cases.append("rssi_trunc " + hx(h[:9]))
     for _ in range(2000 if q else 60000):
         L = rng.choice([3, 4, 5, 8, 16, 24, 26, 28, 30, 40, 80, 200])
         b = bytearray(rng.randrange(256) for _ in range(L))
@@ -95,6 +98,13 @@ def judge(case, impl, model, spec=None):
     if "INPUT-MODIFIED" in impl or "LEAK" in impl:
         return ("side-effect:" + case.split()[0], impl[-60:])
     return None
+
+
+def canon(line):
+    # an out-of-bounds read is the same observation on both sides: ASan's report / the model's Fault
+    if line and ("FAULT@" in line or line.startswith("CRASH asan:heap-buffer-overflow:read")):
+        return "oob-read"
+    return line
 
 
 def nontrivial(case, impl):
